@@ -1332,6 +1332,13 @@ fn cast_into_memory(
             | Ty::ConcreteArray { .. }
             | Ty::Pointer { .. }
             | Ty::RawPtr { .. },
+        )
+        | (
+            Ty::AnonArray { .. }
+            | Ty::ConcreteArray { .. }
+            | Ty::Pointer { .. }
+            | Ty::RawPtr { .. },
+            Ty::String,
         ) => {
             if let Some(memory) = memory
                 && let Some(val) = val
